@@ -12,6 +12,7 @@ import (
 	"github.com/anoideaopen/foundation/core/cctransfer"
 	fpb "github.com/anoideaopen/foundation/proto"
 	"github.com/golang/protobuf/proto" //nolint:staticcheck
+	"google.golang.org/protobuf/encoding/protojson"
 )
 
 const c20Prefix = "/transfer/from/"
@@ -52,6 +53,9 @@ func c20Query(w *World, size int64, bm string) (string, *c20Page) {
 	}
 	return fmt.Sprintf("QOk %s %s", coqList(ids), coqStr(p.Bookmark)), &p
 }
+
+// c20Legacy: ids of records put into the ledger of the next case directly, as an earlier release would have stored them
+var c20Legacy []string
 
 // c20To: the destination channel the records of the next case name (no field of a record has a length limit)
 var c20To = "VT"
@@ -108,6 +112,14 @@ func c20Case(c *Ctx, ids []string, junk []string, walkSizes []int64, keepAll boo
 	for _, j := range junk {
 		w.Peer.Channels["tt"].State[j] = []byte("junk")
 	}
+	// records of releases that still accepted a slash inside an id: stored below the prefix, found by the point query
+	for _, id := range c20Legacy {
+		tr := &fpb.CCTransfer{Id: id, From: "TT", To: "VT", Token: "TT", User: user.Addr, Amount: big.NewInt(7).Bytes(), ForwardDirection: true}
+		if data, err := protojson.Marshal(tr); err == nil {
+			w.Peer.Channels["tt"].State[c20Prefix+id] = data
+			c.Count("record_of_an_earlier_release_with_a_slash_in_its_id")
+		}
+	}
 	// records written by earlier releases are binary protobuf, not JSON: both readers accept either form,
 	// and after an upgrade a ledger holds both next to each other
 	if rng.Intn(2) == 0 {
@@ -153,7 +165,7 @@ func c20Case(c *Ctx, ids []string, junk []string, walkSizes []int64, keepAll boo
 	}
 	// which ids exist according to the point query
 	var existing []string
-	universe := append(append([]string{}, ids...), "t0", "nope")
+	universe := append(append(append([]string{}, ids...), c20Legacy...), "t0", "nope")
 	seen := map[string]bool{}
 	for _, id := range universe {
 		if seen[id] {
@@ -253,7 +265,7 @@ func errClassShort(msg string) string {
 
 func genC20(c *Ctx) error {
 	c.ShardSize = 6
-	c.Notes["rule"] = "each case: fresh chaincode; 0-9 origin-side transfers created through signed batched channelTransferByCustomer with ids from a pool (ids that are prefixes of each other, ids that differ only by trailing or leading white space, ids at and beyond '~', multi-byte ids up to the last code point U+10FFFF, duplicate ids, and ids on which path.Join is not concatenation: '.', '..', 'a/', '../to/x', 'a//b'), then committed / cancelled / committed+deleted at random; two destination-side records and unrelated keys just outside the range; all page sizes 1..n+1 and the two largest sizes the interface takes (2^31-2, 2^31-1) walked from the empty bookmark; single queries for sizes {1,2,n,n+1,2^31-1,0,-1,-100} x bookmarks {empty, every transfer key, keys outside the range, a non-existing key inside the range, the end key}. Plus sets of ids that differ only by white space at either end, all kept. Plus 5-7 records of 300 KiB each (a page of them is megabytes). Plus long listings: 230-330 records created in a permuted order, walked with page sizes 1, 7, 64, 99, 100, 101, 115, n-1, n, n+3, 1000. Plus single ids (fixed awkward ones, then random strings over letters, dots, slashes, blanks, multi-byte and invalid bytes, NUL) through CCFromTransfer / CCToTransfer / Base / IsValidID, each also used to create a record. Non-trivial: >= 2 records in range (an id case: a record was created, or the id has a dot or a slash)."
+	c.Notes["rule"] = "each case: fresh chaincode; 0-9 origin-side transfers created through signed batched channelTransferByCustomer with ids from a pool (ids that are prefixes of each other, ids that differ only by trailing or leading white space, ids at and beyond '~', multi-byte ids up to the last code point U+10FFFF, duplicate ids, and ids on which path.Join is not concatenation: '.', '..', 'a/', '../to/x', 'a//b'), then committed / cancelled / committed+deleted at random; two destination-side records and unrelated keys just outside the range; all page sizes 1..n+1 and the two largest sizes the interface takes (2^31-2, 2^31-1) walked from the empty bookmark; single queries for sizes {1,2,n,n+1,2^31-1,0,-1,-100} x bookmarks {empty, every transfer key, keys outside the range, a non-existing key inside the range, the end key}. Plus sets of ids that differ only by white space at either end and ids of 114-151 bytes, all kept, half of them next to records of an earlier release whose ids hold a slash. Plus 5-7 records of 300 KiB each (a page of them is megabytes). Plus long listings: 230-330 records created in a permuted order, walked with page sizes 1, 7, 64, 99, 100, 101, 115, n-1, n, n+3, 1000. Plus single ids (fixed awkward ones, then random strings over letters, dots, slashes, blanks, multi-byte and invalid bytes, NUL) through CCFromTransfer / CCToTransfer / Base / IsValidID, each also used to create a record. Non-trivial: >= 2 records in range (an id case: a record was created, or the id has a dot or a slash)."
 	rng := c.Rng
 	clean := []string{"a", "ab", "b", "a0", "zz", "é", "0", "A", "abc", "b-1", "~", "a b", "a ", "a\t", "ab ", " a", "~z", "\u007f", "振込", "\U0010FFFF", "\U0010FFFFz", "\U0010FFFEz", "\uFFFDa"}
 	unclean := []string{".", "..", "a/", "../to/x", "a//b", "x/y"}
@@ -282,9 +294,14 @@ func genC20(c *Ctx) error {
 	}
 	// ids that differ only by white space at either end, all kept, every page size: every key is a bookmark once
 	for i := c.N(2, 20); i > 0; i-- {
-		pool := []string{"a", "a ", "a\t", "a\n", "ab", "ab ", " a", "b", "b ", "\tb", "a  ", "振込", "振込 "}
+		pool := []string{"a", "a ", "a\t", "a\n", "ab", "ab ", " a", "b", "b ", "\tb", "a  ", "振込", "振込 ", strings.Repeat("k", 150), strings.Repeat("k", 150) + "z", strings.Repeat("m", 114)}
 		rng.Shuffle(len(pool), func(x, y int) { pool[x], pool[y] = pool[y], pool[x] })
-		if err := c20Case(c, pool[:6+rng.Intn(len(pool)-5)], junkPool[:2], nil, true); err != nil {
+		if i%2 == 0 {
+			c20Legacy = []string{"2023/q4-0001", "2023/q4-0002", "a/b"}[:2+rng.Intn(2)] // keys as path.Join built them
+		}
+		err := c20Case(c, pool[:6+rng.Intn(len(pool)-5)], junkPool[:2], nil, true)
+		c20Legacy = nil
+		if err != nil {
 			return err
 		}
 		c.Count("white_space_neighbours")
